@@ -200,9 +200,33 @@ def two_entries(rng):
     return None
 
 
+def data_tail_then_code(rng):
+    """two insertions at one place of a function's block, the first of them ending in data: the second one goes
+    into that data block, and its code still belongs to the function"""
+    import emodify
+
+    case = emodify.gen_case(rng, nblocks=rng.randint(2, 5), with_data=rng.random() < 0.3, nedits=0)
+    code = [i for i, d in enumerate(case["text"]) if d["kind"] == "code" and d.get("func") is not None and d["insns"]]
+    if not code:
+        return None
+    i = rng.choice(code)
+    off = rng.choice(emodify.block_layout(case["text"][i]))
+    first = rng.choice(["ret\n.byte %d" % rng.randrange(256), "jmp .Lgo\n.Lgo:\nret\n.byte 1, 2", "ret\n.long %d" % rng.randrange(1 << 20)])
+    second = rng.choice(["nop\nnop", "movl $%d, %%eax" % rng.randrange(1 << 20), "nop\nret"])
+    case["edits"] = [{"op": "insert", "block": i, "off": off, "asm": first}, {"op": "insert", "block": i, "off": off, "asm": second}]
+    if rng.random() < 0.4:
+        case["edits"].append({"op": "insert", "block": i, "off": off, "asm": "nop"})
+    return case
+
+
 def run(ctx):
     LE.run(ctx, "C06", 1500, 40000)
     camp = LE.Campaign(ctx, "C06")
+    for _ in range(ctx.budget(60, 1500)):
+        case = data_tail_then_code(ctx.rng)
+        if case is not None:
+            ctx.count("data-tail-then-code")
+            camp.add(case)
     for _ in range(ctx.budget(80, 2000)):
         case = two_entries(ctx.rng)
         if case is not None:
